@@ -10,6 +10,7 @@ package aggregator
 
 import (
 	"context"
+	"fmt"
 	"net"
 	"sort"
 	"sync"
@@ -216,6 +217,37 @@ func (v *VerifC01Agg) Insert(r *VerifC01Ready) {
 	v.a.goInsert(sema, context.Background(), ch, 0)
 }
 
+// InsertBegin starts the real goInsert for one ready bucket and returns once it has taken its oldestTime snapshot (the
+// recentSenders/historicSenders counter goes up in the same critical section) and is parked at `aggBucket.mu.Lock()`,
+// which the caller holds on its behalf: the inserter is "slow" between its snapshot and its pop of historic buckets.
+func (v *VerifC01Agg) InsertBegin(r *VerifC01Ready) (resume func(), err error) {
+	r.b.mu.Lock()
+	done := make(chan struct{})
+	go func() {
+		v.Insert(r)
+		close(done)
+	}()
+	deadline := time.Now().Add(30 * time.Second)
+	for {
+		v.a.mu.Lock()
+		busy := v.a.recentSenders + v.a.historicSenders
+		v.a.mu.Unlock()
+		if busy > 0 {
+			break
+		}
+		if time.Now().After(deadline) {
+			r.b.mu.Unlock()
+			<-done
+			return nil, fmt.Errorf("goInsert did not take its snapshot within 30 s")
+		}
+		time.Sleep(time.Millisecond)
+	}
+	return func() {
+		r.b.mu.Unlock()
+		<-done
+	}, nil
+}
+
 func (v *VerifC01Agg) Window() (times []uint32) {
 	v.a.mu.Lock()
 	defer v.a.mu.Unlock()
@@ -251,11 +283,12 @@ func (v *VerifC01Agg) StopTicker() {
 }
 
 type VerifC01Consts struct {
+	MaxUncompressedBucketSize                                                            int
 	MaxShortWindow, FutureWindow, MaxHistorySendStreams, MaxHistoryInsertContributorsScale int
 	HistoricInserters, InsertHistoricWhen                                                int
 }
 
 func VerifC01GetConsts() VerifC01Consts {
 	c := DefaultConfigAggregator()
-	return VerifC01Consts{data_model.MaxShortWindow, data_model.FutureWindow, data_model.MaxHistorySendStreams, data_model.MaxHistoryInsertContributorsScale, c.HistoricInserters, c.InsertHistoricWhen}
+	return VerifC01Consts{data_model.MaxUncompressedBucketSize, data_model.MaxShortWindow, data_model.FutureWindow, data_model.MaxHistorySendStreams, data_model.MaxHistoryInsertContributorsScale, c.HistoricInserters, c.InsertHistoricWhen}
 }
